@@ -1,20 +1,38 @@
 package main
 
-// Plug-in for the TUP attribute-set model (lean/TarsModel/Model/Tup.lean, properties C05/C06):
-//   - the tags and wire types UniAttribute.Encode / UniAttribute.Decode use for the key (tag 0),
-//     the value (tag 1, SimpleList of BYTE) and the length prefixes, and the `require` flags of the
-//     readers (the two `false` ones are what lets an iteration consume nothing);
-//   - which variant of Decode the tree is: `tupCountChecked` = 1 when the entry count is validated
-//     with Reader.CheckLength between ReadInt32(&length, …) and the loop
-//     (pending/C05-tup-count-spin.patch), 0 as found.
+// Plug-in for the TUP attribute-set model (lean/TarsModel/Model/Tup.lean, properties C05/C06).
+//
+// What the model depends on, and therefore what is recognised here, is the SEQUENCE of codec calls
+// of UniAttribute.Encode / UniAttribute.Decode with their callee names, their literal arguments
+// (wire type constants, tags, require flags) and the ROLE of their variable arguments (the map
+// count, an entry's key, its value, the value's length) — not the identifiers, not whether a loop
+// body lives in a helper (the fallback reading of funcDecl appends helper bodies to the caller's),
+// not the spelling of the loop header (`for i, e := int32(0), n; i < e; i++` and
+// `for i := int32(0); i < n; i++` are the same loop), not whether the value's wire type is tested
+// with `==` or with `!=` and an early return.
+//
+// `tupCountChecked` = 1 when the entry count is validated with Reader.CheckLength between the read
+// of the count and the loop (pending/C05-tup-count-spin.patch), 0 when there is no such call.
 
 import (
 	"go/ast"
+	"go/token"
 	"strings"
 )
 
+var tupCodecCalls = map[string]bool{
+	"WriteHead": true, "WriteInt32": true, "WriteString": true, "WriteBytes": true,
+	"SkipTo": true, "SkipToNoCheck": true, "ReadInt32": true, "ReadString": true, "ReadBytes": true, "CheckLength": true,
+}
+
+type tupCall struct {
+	name string
+	args []ast.Expr
+	pos  token.Pos
+}
+
 // tupCalls lists, in source order, the calls `<recv>.<Method>(args…)` inside fd as
-// "Method(arg, arg, …)" strings.
+// "Method(arg, arg, …)" strings (used by other plug-ins for library-call sequences).
 func tupCalls(f *file, fd *ast.FuncDecl, recv string) []string {
 	var out []string
 	ast.Inspect(fd, func(n ast.Node) bool {
@@ -36,6 +54,158 @@ func tupCalls(f *file, fd *ast.FuncDecl, recv string) []string {
 	return out
 }
 
+// tupCodecSeq: the codec calls (method calls on an identifier, callee in tupCodecCalls) of the
+// (expanded) body, in order.
+func tupCodecSeq(fd *ast.FuncDecl) []tupCall {
+	var out []tupCall
+	ast.Inspect(fd.Body, func(n ast.Node) bool {
+		ce, ok := n.(*ast.CallExpr)
+		if !ok {
+			return true
+		}
+		se, ok := ce.Fun.(*ast.SelectorExpr)
+		if !ok || !tupCodecCalls[se.Sel.Name] {
+			return true
+		}
+		if _, isIdent := se.X.(*ast.Ident); !isIdent {
+			return true
+		}
+		out = append(out, tupCall{se.Sel.Name, ce.Args, ce.Pos()})
+		return true
+	})
+	return out
+}
+
+// tupVar: the identifier behind `x`, `&x`, `int32(len(x))`, `len(x)`; "" when the expression is
+// something else. sel reports a selector operand (`u.data`) printed.
+func tupVar(f *file, e ast.Expr) (ident string, sel string) {
+	for {
+		switch x := e.(type) {
+		case *ast.ParenExpr:
+			e = x.X
+			continue
+		case *ast.UnaryExpr:
+			if x.Op == token.AND {
+				e = x.X
+				continue
+			}
+		case *ast.CallExpr:
+			if id, ok := x.Fun.(*ast.Ident); ok && len(x.Args) == 1 && (id.Name == "int32" || id.Name == "len" || id.Name == "int") {
+				e = x.Args[0]
+				continue
+			}
+		case *ast.Ident:
+			return x.Name, ""
+		case *ast.SelectorExpr:
+			return "", exprStr(f.fset, x)
+		}
+		return "", ""
+	}
+}
+
+// tupShape renders a call with its literal arguments kept and its variable arguments replaced by
+// the role names given in roles (identifier -> role); unknown variables print as `?name`.
+func tupShape(f *file, c tupCall, roles map[string]string) string {
+	var args []string
+	for _, a := range c.args {
+		switch x := a.(type) {
+		case *ast.BasicLit:
+			args = append(args, x.Value)
+			continue
+		case *ast.SelectorExpr:
+			if id, ok := x.X.(*ast.Ident); ok && id.Name == "codec" {
+				args = append(args, "codec."+x.Sel.Name)
+				continue
+			}
+		case *ast.Ident:
+			if x.Name == "true" || x.Name == "false" {
+				args = append(args, x.Name)
+				continue
+			}
+		}
+		id, sel := tupVar(f, a)
+		switch {
+		case id != "" && roles[id] != "":
+			args = append(args, roles[id])
+		case sel != "" && roles[sel] != "":
+			args = append(args, roles[sel])
+		case id != "":
+			args = append(args, "?"+id)
+		default:
+			args = append(args, "?"+exprStr(f.fset, a))
+		}
+	}
+	return c.name + "(" + strings.Join(args, ", ") + ")"
+}
+
+// tupParamRole: identifier `name` is a parameter of a same-package function that the (expanded)
+// body calls with the identifier `actual` in the same position.
+func tupParamRole(f *file, fd *ast.FuncDecl, name, actual string) bool {
+	ok := false
+	table := f.funcsOfPkg()
+	ast.Inspect(fd.Body, func(n ast.Node) bool {
+		ce, isCall := n.(*ast.CallExpr)
+		if !isCall {
+			return true
+		}
+		callee, isIdent := ce.Fun.(*ast.Ident)
+		if !isIdent {
+			return true
+		}
+		for _, cd := range table[callee.Name] {
+			var params []string
+			for _, p := range cd.Type.Params.List {
+				for _, n := range p.Names {
+					params = append(params, n.Name)
+				}
+			}
+			for i, a := range ce.Args {
+				if id, isId := a.(*ast.Ident); isId && id.Name == actual && i < len(params) && params[i] == name {
+					ok = true
+				}
+			}
+		}
+		return true
+	})
+	return ok
+}
+
+// tupReturned: identifier `local` is the first result of a return statement of a same-package
+// function whose call result is assigned to the identifier `outer` in the (expanded) body.
+func tupReturned(f *file, fd *ast.FuncDecl, outer, local string) bool {
+	ok := false
+	table := f.funcsOfPkg()
+	ast.Inspect(fd.Body, func(n ast.Node) bool {
+		as, isAs := n.(*ast.AssignStmt)
+		if !isAs || len(as.Rhs) != 1 || len(as.Lhs) == 0 {
+			return true
+		}
+		if id, isId := as.Lhs[0].(*ast.Ident); !isId || id.Name != outer {
+			return true
+		}
+		ce, isCall := as.Rhs[0].(*ast.CallExpr)
+		if !isCall {
+			return true
+		}
+		callee, isIdent := ce.Fun.(*ast.Ident)
+		if !isIdent {
+			return true
+		}
+		for _, cd := range table[callee.Name] {
+			ast.Inspect(cd.Body, func(m ast.Node) bool {
+				if rs, isRet := m.(*ast.ReturnStmt); isRet && len(rs.Results) > 0 {
+					if id, isId := rs.Results[0].(*ast.Ident); isId && id.Name == local {
+						ok = true
+					}
+				}
+				return true
+			})
+		}
+		return true
+	})
+	return ok
+}
+
 func init() {
 	const rel = "tars/protocol/tup/tup.go"
 	mirrored[rel] = []string{"UniAttribute.Encode", "UniAttribute.Decode", "UniAttribute.PutBuffer", "UniAttribute.GetBuffer"}
@@ -44,51 +214,228 @@ func init() {
 		if f == nil {
 			return
 		}
-		if fd := f.funcDecl("UniAttribute.Encode"); fd != nil {
-			got := strings.Join(tupCalls(f, fd, "os"), "; ")
-			want := "WriteHead(codec.MAP, 0); WriteInt32(int32(len(u.data)), 0); WriteString(k, 0); " +
-				"WriteHead(codec.SimpleList, 1); WriteHead(codec.BYTE, 0); WriteInt32(int32(len(v)), 0); WriteBytes(v)"
-			if got != want {
-				anchorLost("tup.go: UniAttribute.Encode: writer calls are `%s`, the model mirrors `%s`", got, want)
-			}
+		if fd := f.funcDecl("UniAttribute.Encode"); fd != nil && fd.Body != nil {
+			tupEncode(f, fd)
 		}
-		if fd := f.funcDecl("UniAttribute.Decode"); fd != nil {
-			calls := tupCalls(f, fd, "is")
-			got := strings.Join(calls, "; ")
-			head := "SkipTo(codec.MAP, 0, false); ReadInt32(&length, 0, true); "
-			loop := "ReadString(&k, 0, false); SkipToNoCheck(1, false); SkipTo(codec.BYTE, 0, true); " +
-				"ReadInt32(&byteLen, 0, true); ReadBytes(&v, byteLen, true)"
-			switch got {
-			case head + loop:
-				add("tupCountChecked", 0, true)
-			case head + "CheckLength(length); " + loop:
-				add("tupCountChecked", 1, true)
-			default:
-				anchorLost("tup.go: UniAttribute.Decode: reader calls are `%s`: neither the as-found nor the repaired sequence the model mirrors", got)
-			}
-			// the loop header the model's count recursion mirrors: `for i, e := int32(0), length; i < e; i++`
-			okLoop := false
-			ast.Inspect(fd, func(n ast.Node) bool {
-				fs, ok := n.(*ast.ForStmt)
-				if !ok {
-					return true
-				}
-				if fs.Init != nil && fs.Cond != nil && fs.Post != nil &&
-					exprStr(f.fset, fs.Init) == "i, e := int32(0), length" &&
-					exprStr(f.fset, fs.Cond) == "i < e" && exprStr(f.fset, fs.Post) == "i++" {
-					okLoop = true
-				}
-				return true
-			})
-			if !okLoop {
-				anchorLost("tup.go: UniAttribute.Decode: loop `for i, e := int32(0), length; i < e; i++` not found")
-			}
-			// the value's wire type test
-			if !f.cmpIdent(fd, "ty", "codec.SimpleList") {
-				anchorLost("tup.go: UniAttribute.Decode: `ty == codec.SimpleList` not found")
-			}
+		if fd := f.funcDecl("UniAttribute.Decode"); fd != nil && fd.Body != nil {
+			tupDecode(f, fd, add)
 		}
 	})
+}
+
+func tupEncode(f *file, fd *ast.FuncDecl) {
+	seq := tupCodecSeq(fd)
+	// the loop: `for K, V := range M`
+	var rk, rv, rm string
+	ast.Inspect(fd.Body, func(n ast.Node) bool {
+		if rs, ok := n.(*ast.RangeStmt); ok && rm == "" {
+			k, _ := rs.Key.(*ast.Ident)
+			v, _ := rs.Value.(*ast.Ident)
+			if k != nil && v != nil {
+				rk, rv, rm = k.Name, v.Name, exprStr(f.fset, rs.X)
+			}
+		}
+		return true
+	})
+	if rm == "" {
+		anchorLost("tup.go: UniAttribute.Encode: loop `for <key>, <value> := range <map>` not found")
+		return
+	}
+	roles := map[string]string{rm: "COUNT"}
+	// key and value: the range variables themselves, or the helper parameters they are passed as
+	for _, c := range seq {
+		if len(c.args) == 0 {
+			continue
+		}
+		id, _ := tupVar(f, c.args[0])
+		if id == "" {
+			continue
+		}
+		switch c.name {
+		case "WriteString":
+			if id == rk || tupParamRole(f, fd, id, rk) {
+				roles[id] = "KEY"
+			}
+		case "WriteBytes", "WriteInt32":
+			if id == rv || tupParamRole(f, fd, id, rv) {
+				roles[id] = "VALUE"
+			}
+		}
+	}
+	var got []string
+	for _, c := range seq {
+		got = append(got, tupShape(f, c, roles))
+	}
+	want := "WriteHead(codec.MAP, 0); WriteInt32(COUNT, 0); WriteString(KEY, 0); " +
+		"WriteHead(codec.SimpleList, 1); WriteHead(codec.BYTE, 0); WriteInt32(VALUE, 0); WriteBytes(VALUE)"
+	if g := strings.Join(got, "; "); g != want {
+		anchorLost("tup.go: UniAttribute.Encode: writer calls are `%s`, the model mirrors `%s` (COUNT = the ranged map, KEY / VALUE = its range variables)", g, want)
+	}
+}
+
+func tupDecode(f *file, fd *ast.FuncDecl, add func(string, int64, bool)) {
+	seq := tupCodecSeq(fd)
+	roles := map[string]string{}
+	first := func(name string, nth int) *tupCall {
+		for i := range seq {
+			if seq[i].name == name {
+				if nth == 0 {
+					return &seq[i]
+				}
+				nth--
+			}
+		}
+		return nil
+	}
+	// roles by position in the protocol: the first ReadInt32 reads the count, the second the
+	// value's length; ReadString reads the key; ReadBytes the value
+	if c := first("ReadInt32", 0); c != nil && len(c.args) > 0 {
+		if id, _ := tupVar(f, c.args[0]); id != "" {
+			roles[id] = "COUNT"
+		}
+	}
+	if c := first("ReadInt32", 1); c != nil && len(c.args) > 0 {
+		if id, _ := tupVar(f, c.args[0]); id != "" && roles[id] == "" {
+			roles[id] = "LEN"
+		}
+	}
+	var keyVar, valVar, countVar string
+	for id, r := range roles {
+		if r == "COUNT" {
+			countVar = id
+		}
+	}
+	if c := first("ReadString", 0); c != nil && len(c.args) > 0 {
+		if id, _ := tupVar(f, c.args[0]); id != "" && roles[id] == "" {
+			roles[id], keyVar = "KEY", id
+		}
+	}
+	if c := first("ReadBytes", 0); c != nil && len(c.args) > 0 {
+		if id, _ := tupVar(f, c.args[0]); id != "" && roles[id] == "" {
+			roles[id], valVar = "VALUE", id
+		}
+	}
+	var got []string
+	checked := false
+	for _, c := range seq {
+		s := tupShape(f, c, roles)
+		if s == "CheckLength(COUNT)" && len(got) == 2 && !checked {
+			// between the read of the count and the first call of the loop
+			checked = true
+			continue
+		}
+		got = append(got, s)
+	}
+	want := "SkipTo(codec.MAP, 0, false); ReadInt32(COUNT, 0, true); ReadString(KEY, 0, false); SkipToNoCheck(1, false); " +
+		"SkipTo(codec.BYTE, 0, true); ReadInt32(LEN, 0, true); ReadBytes(VALUE, LEN, true)"
+	if g := strings.Join(got, "; "); g != want {
+		anchorLost("tup.go: UniAttribute.Decode: reader calls are `%s` (count validated: %v): not the sequence the model mirrors, `%s` with an optional CheckLength(COUNT) behind the read of the count", g, checked, want)
+		return
+	}
+	// the loop: counter from 0, `<`, bound = the count (directly or through a second loop variable
+	// initialised with it), increment
+	var loop *ast.ForStmt
+	ast.Inspect(fd.Body, func(n ast.Node) bool {
+		fs, ok := n.(*ast.ForStmt)
+		if !ok || loop != nil || fs.Init == nil || fs.Cond == nil || fs.Post == nil {
+			return true
+		}
+		as, ok := fs.Init.(*ast.AssignStmt)
+		cond, ok2 := fs.Cond.(*ast.BinaryExpr)
+		post, ok3 := fs.Post.(*ast.IncDecStmt)
+		if !ok || !ok2 || !ok3 || cond.Op != token.LSS || post.Tok != token.INC || len(as.Lhs) != len(as.Rhs) {
+			return true
+		}
+		ctr, _ := cond.X.(*ast.Ident)
+		bound, _ := cond.Y.(*ast.Ident)
+		pctr, _ := post.X.(*ast.Ident)
+		if ctr == nil || bound == nil || pctr == nil || pctr.Name != ctr.Name {
+			return true
+		}
+		zero, boundOK := false, bound.Name == countVar
+		for i, l := range as.Lhs {
+			id, _ := l.(*ast.Ident)
+			if id == nil {
+				continue
+			}
+			r := exprStr(f.fset, as.Rhs[i])
+			if id.Name == ctr.Name && (r == "int32(0)" || r == "0") {
+				zero = true
+			}
+			if id.Name == bound.Name && r == countVar {
+				boundOK = true
+			}
+		}
+		if zero && boundOK {
+			loop = fs
+		}
+		return true
+	})
+	if loop == nil {
+		anchorLost("tup.go: UniAttribute.Decode: loop `for i := 0; i < <count>; i++` (the count read before as its bound) not found")
+		return
+	}
+	if checked {
+		// when everything is in one function the validation must also precede the loop textually
+		if c := first("CheckLength", 0); c != nil && c.pos > loop.Pos() && c.pos < loop.End() {
+			anchorLost("tup.go: UniAttribute.Decode: CheckLength(<count>) is inside the loop, not in front of it")
+			return
+		}
+		add("tupCountChecked", 1, true)
+	} else {
+		add("tupCountChecked", 0, true)
+	}
+	// the value's wire type test: `<ty> == codec.SimpleList` or `<ty> != codec.SimpleList`, <ty> the
+	// second result of SkipToNoCheck
+	tyVar := ""
+	ast.Inspect(fd.Body, func(n ast.Node) bool {
+		as, ok := n.(*ast.AssignStmt)
+		if !ok || len(as.Rhs) != 1 || len(as.Lhs) != 3 {
+			return true
+		}
+		if ce, ok := as.Rhs[0].(*ast.CallExpr); ok {
+			if se, ok := ce.Fun.(*ast.SelectorExpr); ok && se.Sel.Name == "SkipToNoCheck" {
+				if id, ok := as.Lhs[1].(*ast.Ident); ok {
+					tyVar = id.Name
+				}
+			}
+		}
+		return true
+	})
+	tested := false
+	ast.Inspect(fd.Body, func(n ast.Node) bool {
+		be, ok := n.(*ast.BinaryExpr)
+		if ok && (be.Op == token.EQL || be.Op == token.NEQ) && tyVar != "" &&
+			exprStr(f.fset, be.X) == tyVar && exprStr(f.fset, be.Y) == "codec.SimpleList" {
+			tested = true
+		}
+		return true
+	})
+	if !tested {
+		anchorLost("tup.go: UniAttribute.Decode: test of the value's wire type (second result of SkipToNoCheck) against codec.SimpleList not found")
+	}
+	// the store: `<recv>.data[<key>] = <value>`, the value being what ReadBytes filled (directly or
+	// as the result of the helper that read it)
+	stored := false
+	ast.Inspect(fd.Body, func(n ast.Node) bool {
+		as, ok := n.(*ast.AssignStmt)
+		if !ok || len(as.Lhs) != 1 || len(as.Rhs) != 1 {
+			return true
+		}
+		ix, ok := as.Lhs[0].(*ast.IndexExpr)
+		if !ok || !strings.HasSuffix(exprStr(f.fset, ix.X), ".data") {
+			return true
+		}
+		k, _ := ix.Index.(*ast.Ident)
+		v, _ := as.Rhs[0].(*ast.Ident)
+		if k != nil && v != nil && k.Name == keyVar && (v.Name == valVar || tupReturned(f, fd, v.Name, valVar)) {
+			stored = true
+		}
+		return true
+	})
+	if !stored {
+		anchorLost("tup.go: UniAttribute.Decode: store `u.data[<key>] = <value>` of the key read by ReadString and the bytes read by ReadBytes not found")
+	}
 }
 
 // cmpIdent: is there an `<lhs> == <rhs>` (printed forms) inside fd?
